@@ -1156,9 +1156,31 @@ class Walker:
             if hi is not None:
                 K.add(cmp_atoms("<=" if incl else "<", v, T.term(hi)))
             return
+        ELEM = ("iter", "iter_mut", "copied", "cloned", "as_ref", "into_iter", "as_mut", "par_iter")
+        chain = method_chain(F, it)
+        names = [c[0] for c in chain]
+        if chain and all(x in ELEM + ("enumerate",) for x in names) and names.count("enumerate") <= 1:
+            base = T.term(chain[-1][1])
+            if "enumerate" in names and pat.get("k") == "PTuple" and len(pat["ps"]) == 2 and pat["ps"][0].get("k") == "PBind" and names.index("enumerate") == 0:
+                idx = pat["ps"][0]
+                iv = ("var", idx["name"], idx["id"])
+                K.add(cmp_atoms("<", iv, ("call", "len", (base,))))
+                ep = pat["ps"][1]
+                while ep.get("k") == "PRef":
+                    ep = ep["p"]
+                if ep.get("k") == "PBind":
+                    self.T.env[ep["id"]] = ("index", base, iv)
+                return
+            if "enumerate" not in names:
+                ep = pat
+                while ep.get("k") == "PRef":
+                    ep = ep["p"]
+                if ep.get("k") == "PBind":
+                    iv = ("var", "pos_of_" + ep["name"], "%s#i" % ep["id"])
+                    K.add(cmp_atoms("<", iv, ("call", "len", (base,))))
+                    self.T.env[ep["id"]] = ("index", base, iv)
+                return
         if pat.get("k") == "PTuple" and len(pat["ps"]) == 2 and pat["ps"][0].get("k") == "PBind":
-            chain = method_chain(F, it)
-            names = [c[0] for c in chain]
             if "enumerate" in names:
                 idx = pat["ps"][0]
                 v = ("var", idx["name"], idx["id"])
